@@ -408,7 +408,10 @@ def unpem(pem):
             if l and not l.startswith(b("-----"))
         ]
     )
-    return base64.b64decode(d)
+    try:
+        return base64.b64decode(d)
+    except binascii.Error as e:
+        raise UnexpectedDER("Malformed base64 in PEM: %s" % e)
 
 
 def topem(der, name):
